@@ -37,6 +37,7 @@ Lines (tab separated, after the sequence number):
   amm.k.begin <tickPrecision>                        a fresh pair on the REAL keeper (no pools)
   amm.k.place <dir> <msgPrice> <amount> <expireAt> <ok|err> <id> <price> <offer> <batchId>
         real MsgLimitOrder through the message router; the stored order's id / tick-fitted price / offer coin / batch id
+        monitor placed_price_within_limit on the REAL stored price (a grid tick; buy: ≤ the message price, sell: ≥ it)
   amm.k.params <maxPriceLimitRatio> <maxNumMarketMakingOrderTicks>     the pair's parameters (after amm.k.begin)
   amm.k.market <dir> <amount> <expireAt> <ok|err> <id> <price> <offer> <batchId>
         real MsgMarketOrder through the message router; price = last price ± ratio fitted to the grid (`placeMarket`)
@@ -319,7 +320,13 @@ def handle (st : St) (seq : String) (f : List String) : St × List String :=
       let (k', so) := placeOrder st.k st.kprec d mp amt exp
       let m := s!"{so.id}\t{so.price}\t{so.offer}\t{so.batchId}"
       let r := s!"{id}\t{price}\t{offer}\t{batch}"
-      ({ st with k := k' }, if m = r then [] else [s!"DIFF\t{seq}\tmodel={m}\timpl={r}"])
+      -- monitor on the REAL stored price: a tick of the grid, not above the message price for a buy, not below it for a sell
+      let mon := match parseInt? price with
+        | some rp =>
+          let within := match d with | .buy => decide (rp ≤ mp) | .sell => decide (mp ≤ rp)
+          if within && isTick rp st.kprec && decide (0 < rp) then [] else [s!"MON\t{seq}\tplaced_price_within_limit"]
+        | none => [s!"BAD\t{seq}\tk.place price"]
+      ({ st with k := k' }, (if m = r then [] else [s!"DIFF\t{seq}\tmodel={m}\timpl={r}"]) ++ mon)
     | _, _, _, _ => (st, [s!"BAD\t{seq}\tk.place"])
   | ["amm.k.batch", now, lp, bid, orders] =>
     match parseInt? now with
